@@ -126,6 +126,7 @@ struct G<'r> {
     trace_no: u32,
     has_fail_in_proc: bool,
     uses_resume_label: bool,
+    pending_return_labels: Vec<String>,
 }
 
 const GLOBALS: [&str; 4] = ["G1%", "G2%", "G3%", "G4%"];
@@ -249,6 +250,8 @@ impl<'r> G<'r> {
             FailKind::Overflow,
             FailKind::IllegalCall,
             FailKind::BadHandle,
+            FailKind::DivZeroNestedArgs,
+            FailKind::DivZeroBuiltInArgs,
         ];
         if self.f.fail_mid_expression && !self.avoid.fail_mid_expression {
             kinds.push(FailKind::DivZeroMid);
@@ -350,7 +353,14 @@ impl<'r> G<'r> {
             body.push(inner);
             body.push(self.trace());
         }
-        body.push(self.st(StmtKind::Return(None)));
+        if self.f.return_label && self.rng.chance(1, 2) {
+            // RETURN label: the label is placed at the end of the enclosing top-level list
+            let l = format!("RT{}", self.n_gosub);
+            self.pending_return_labels.push(l.clone());
+            body.push(self.st(StmtKind::Return(Some(l))));
+        } else {
+            body.push(self.st(StmtKind::Return(None)));
+        }
         (self.in_gosub_body, self.in_for_depth, self.in_for_step_depth, self.in_select_depth, self.in_loop_depth) = saved;
         self.gosub_bodies.push(body);
         self.st(StmtKind::Gosub(label))
@@ -365,6 +375,10 @@ impl<'r> G<'r> {
     }
 
     fn body(&mut self, depth: u32) -> Vec<Stmt> {
+        if self.rng.chance(1, 8) {
+            // empty block
+            return vec![];
+        }
         let n = 1 + self.rng.below(3);
         let mut v = vec![];
         for _ in 0..n {
@@ -686,6 +700,11 @@ impl<'r> G<'r> {
         }
         self.add_gotos(&mut list);
         self.add_back_goto(&mut list);
+        let labels = std::mem::take(&mut self.pending_return_labels);
+        for l in labels {
+            let s = self.st(StmtKind::Label(l));
+            list.push(s);
+        }
         list
     }
 
@@ -830,6 +849,7 @@ pub fn gen_control_flow(rng: &mut Rng, avoid: &Avoid) -> Scenario {
         trace_no: 0,
         has_fail_in_proc: false,
         uses_resume_label: false,
+        pending_return_labels: vec![],
     };
     // procedures first (higher numbers are generated first so lower ones can call them)
     let mut procs: Vec<Proc> = vec![];
